@@ -658,11 +658,19 @@ class ZipFileLinearIndex(Index):
             # yield all signatures found in manifest
             for filename in manifest.locations():
                 data = self.storage.load(filename)
+                n_found = 0
                 for ss in load_signatures_from_json(data):
                     # in case multiple signatures are in the file, check
                     # to make sure we want to return each one.
                     if ss in manifest:
+                        n_found += 1
                         yield ss
+                if not n_found:
+                    # the manifest lists signatures at this location: an empty or
+                    # foreign member must not make them silently disappear.
+                    raise ValueError(
+                        f"manifest lists signatures in '{filename}', but none could be loaded from it"
+                    )
 
         # no manifest! iterate.
         else:
